@@ -5,6 +5,9 @@
 //   sweep_parse_getters   : serialize every grammar packet, parse the bytes back through the root class' buffer constructor,
 //                           call EVERY generated getter on every layer (exceptions of libtins are part of the digest), serialize again
 // mc/show.hpp's view() is not used: its getter table / per-type cache are lazily filled statics of the harness itself.
+// The generated tables expand into a few very large functions: optimising them costs minutes of compile time and buys nothing
+// (the instrumentation passes run regardless), so this translation unit is compiled unoptimised.
+#pragma clang optimize off
 #define MC_NO_IMPL
 #include "grammar.hpp"
 #include "C18_iface.hpp"
